@@ -57,6 +57,7 @@ typedef std::vector<Op> Script;
 static std::vector<std::string> split(const std::string& s, char c) {
     std::vector<std::string> v; std::string cur; std::stringstream ss(s);
     while (std::getline(ss, cur, c)) v.push_back(cur);
+    if (!s.empty() && s.back() == c) v.push_back("");     // getline drops a trailing empty field
     return v;
 }
 static std::string trim(const std::string& s) {
